@@ -82,7 +82,21 @@ func specialNumbers() []cty.Value {
 		cty.PositiveInfinity, cty.NegativeInfinity, cty.NumberFloatVal(math.Inf(1)), cty.NumberFloatVal(math.Inf(-1)),
 		cty.NumberIntVal(1), cty.NumberIntVal(-1), cty.NumberIntVal(2), cty.NumberFloatVal(2.5), cty.MustParseNumberVal("2.5"),
 		cty.MustParseNumberVal("123456789.123456789"), cty.NumberFloatVal(123456789.123456789),
+		// one decimal text at float32-like and other odd precisions, next to its 53- and 512-bit twins above
+		oddPrec("0.1", 24), oddPrec("0.1", 100), oddPrec("0.3", 24), oddPrec("0.5", 24), oddPrec("1.00000000001", 100),
+		cty.NumberFloatVal(float64(float32(0.1))), cty.NumberFloatVal(5e-324), oddPrec("5e-324", 24),
+		// whole numbers beyond uint64 at several precisions (2^70, 1e25)
+		cty.MustParseNumberVal("1180591620717411303424"), cty.NumberFloatVal(1180591620717411303424), cty.NumberIntVal(1 << 35).Multiply(cty.NumberIntVal(1 << 35)),
+		cty.MustParseNumberVal("1e25"), cty.NumberFloatVal(1e25),
 	}
+}
+
+func oddPrec(d string, prec uint) cty.Value {
+	f, _, err := big.ParseFloat(d, 10, prec, big.ToNearestEven)
+	if err != nil {
+		panic(err)
+	}
+	return cty.NumberVal(f)
 }
 
 // longStrings share long prefixes (63, 64, 100, 300 bytes) and differ only at the
@@ -267,7 +281,7 @@ func triClass(v cty.Value) string {
 
 // runLaws: all ordered pairs of each pool, sampled triples.
 func runLaws(c *core.Ctx) {
-	size := c.N(48, 140)
+	size := c.N(64, 140)
 	var caseIdx int64
 	for pi, p := range pools {
 		pool := buildPool(c.GlobalRNG("pool:"+p.name), p, size)
